@@ -1,0 +1,93 @@
+//go:build verif
+
+package waddrmgr
+
+import (
+	"fmt"
+)
+
+// VerifSecret describes one in-memory buffer that may hold clear-text secret
+// material. It only exists in builds with the `verif` tag, where the property
+// checks under /verif use it to observe that locking wipes memory (wiping has
+// no effect that is visible through the regular API).
+type VerifSecret struct {
+	// Kind is one of: master-key-priv, crypto-key-priv, crypto-key-script,
+	// hashed-passphrase, account-key-priv, address-privkey, p2sh-script,
+	// witness-script, derived-key-cache.
+	Kind string
+
+	// ID identifies the buffer (scope/account/address/path).
+	ID string
+
+	// Present is true when the buffer is non-nil and contains at least one
+	// non-zero byte.
+	Present bool
+}
+
+func verifNonZero(b []byte) bool {
+	for _, x := range b {
+		if x != 0 {
+			return true
+		}
+	}
+	return false
+}
+
+// VerifSecretsReport reports, for every clear-text key buffer the manager and
+// its scoped managers hold, whether it currently contains key material. It
+// takes the manager locks and changes nothing.
+func (m *Manager) VerifSecretsReport() []VerifSecret {
+	m.mtx.RLock()
+	defer m.mtx.RUnlock()
+
+	var out []VerifSecret
+	add := func(kind, id string, present bool) {
+		out = append(out, VerifSecret{Kind: kind, ID: id, Present: present})
+	}
+
+	if m.masterKeyPriv != nil && m.masterKeyPriv.Key != nil {
+		add("master-key-priv", "", verifNonZero(m.masterKeyPriv.Key[:]))
+	} else {
+		add("master-key-priv", "", false)
+	}
+	add("crypto-key-priv", "", m.cryptoKeyPriv != nil && verifNonZero(m.cryptoKeyPriv.Bytes()))
+	add("crypto-key-script", "", m.cryptoKeyScript != nil && verifNonZero(m.cryptoKeyScript.Bytes()))
+	add("hashed-passphrase", "", verifNonZero(m.hashedPrivPassphrase[:]))
+
+	for scope, s := range m.scopedManagers {
+		s.mtx.RLock()
+		for acct, info := range s.acctInfo {
+			id := fmt.Sprintf("%v/%d", scope, acct)
+			add("account-key-priv", id, info.acctKeyPriv != nil && info.acctKeyPriv.IsPrivate())
+		}
+		for _, ma := range s.addrs {
+			id := fmt.Sprintf("%v/%s", scope, ma.Address().String())
+			switch a := ma.(type) {
+			case *managedAddress:
+				a.privKeyMutex.Lock()
+				add("address-privkey", id, verifNonZero(a.privKeyCT))
+				a.privKeyMutex.Unlock()
+			case *scriptAddress:
+				a.scriptMutex.Lock()
+				add("p2sh-script", id, verifNonZero(a.scriptClearText))
+				a.scriptMutex.Unlock()
+			case *witnessScriptAddress:
+				a.scriptMutex.Lock()
+				add("witness-script", id, verifNonZero(a.scriptClearText))
+				a.scriptMutex.Unlock()
+			case *taprootScriptAddress:
+				a.scriptMutex.Lock()
+				add("witness-script", id, verifNonZero(a.scriptClearText))
+				a.scriptMutex.Unlock()
+			}
+		}
+		s.privKeyCache.Range(func(kp DerivationPath, k *cachedKey) bool {
+			id := fmt.Sprintf("%v/%d/%d/%d", scope, kp.InternalAccount, kp.Branch, kp.Index)
+			b := k.key.Serialize()
+			add("derived-key-cache", id, verifNonZero(b))
+			return true
+		})
+		s.mtx.RUnlock()
+	}
+	return out
+}
